@@ -16,6 +16,7 @@ func main() {
 		os.Exit(2)
 	}
 	id := os.Args[1]
+	os.Setenv("VERIF_PROP", id)
 	ps, ok := props.All()[id]
 	if !ok {
 		orch.Fatal("no check registered for %s", id)
